@@ -490,8 +490,11 @@ class KSKM_P11Module:
                 algorithm = AlgorithmDNSSEC.ECDSAP384SHA384
             else:
                 raise RuntimeError(f"Unknown curve {crv}")
+            if ec_point[0] != 4:
+                raise RuntimeError("Unsupported EC point format (not uncompressed)")
+            # DNSSEC public keys (RFC 6605) are the bare x and y values, without the SEC1 0x04 prefix
             _pubkey_ecdsa = KSKM_PublicKey_ECDSA(
-                bits=_ec_len, q=ec_point, curve=crv, algorithm=algorithm
+                bits=_ec_len, q=ec_point[1:], curve=crv, algorithm=algorithm
             )
             return _pubkey_ecdsa.encode_public_key()
         raise NotImplementedError(f"Unknown CKA_TYPE: {_cka_type}")
